@@ -144,7 +144,7 @@ pub fn run_seq(case: &SeqCase, rep: &mut RunReport) -> Result<(), Violation> {
     let mut cfg = SimConfig::simple(case.seed);
     cfg.park = false;
     cfg.clock = case.clock.clone();
-    cfg.record_trace = false;
+    cfg.record_trace = std::env::var("SIM_TRACE").is_ok();
     if let SeqMode::Fault { fault, .. } = &case.mode {
         cfg.faults = vec![fault.clone()];
     }
@@ -196,6 +196,12 @@ pub fn run_seq(case: &SeqCase, rep: &mut RunReport) -> Result<(), Violation> {
     let mut suspect = false;
     // ids handed out since the handle was last (re)loaded from storage
     let mut handed_this_boot: std::collections::BTreeSet<u64> = Default::default();
+    // Extension keys whose DURABLE value differs from what the live handle
+    // reports: a failed (unacknowledged) save/remove_extension changes the
+    // handle's memory before it persists and neither rolls back nor poisons, so
+    // until the next successful metadata write a reload from storage may
+    // legitimately show the old value. Maps key -> durable value.
+    let mut unsettled_ext: std::collections::BTreeMap<String, Option<u64>> = Default::default();
     // the index set in effect (DOp::Reindex changes it)
     let mut cur_ix = knobs.indexes;
     let with_ix = |ix: u8| {
@@ -215,12 +221,16 @@ pub fn run_seq(case: &SeqCase, rep: &mut RunReport) -> Result<(), Violation> {
             None
         };
         let f0 = real_faults(&sim);
+        let mlog0 = sim.mut_log_len();
         let out = block(world.exec(op));
         let faulted = real_faults(&sim) > f0;
         trace.add_str(&format!("{out:?}"));
         let mut new_id = None;
         let mut ok = !matches!(out, Outcome::Err { .. });
         let deferred = suspect && !ok && !faulted && !matches!(exp, Expect::Reject(_));
+        if std::env::var("SIM_TRACE").is_ok() {
+            eprintln!("op#{i} {op:?} -> {out:?} faulted={faulted} deferred={deferred} suspect={suspect} poisoned={} model.ext={:?}", world.coll.is_poisoned(), model.ext);
+        }
         if deferred {
             rep.probe("deferred_failure_on_suspect_handle", 1);
         }
@@ -257,6 +267,22 @@ pub fn run_seq(case: &SeqCase, rep: &mut RunReport) -> Result<(), Violation> {
                 v.message = format!("after faulted op#{i} {op:?} ({}): {}", if need_restart { "restart" } else if poisoned { "reopen" } else { "same handle" }, v.message);
                 v
             })?;
+            if need_restart || poisoned {
+                // loaded from storage: an unsettled key may show its durable value
+                for (k, dv) in std::mem::take(&mut unsettled_ext) {
+                    if obs.ext.get(&k) == dv.as_ref() {
+                        match dv {
+                            Some(v) => {
+                                model.ext.insert(k, v);
+                            }
+                            None => {
+                                model.ext.remove(&k);
+                            }
+                        }
+                        rep.probe("unsettled_extension_showed_durable_value", 1);
+                    }
+                }
+            }
             // possible worlds: before or after
             let mut after = model.clone();
             if let Expect::AddOk(_) = &exp {
@@ -272,7 +298,13 @@ pub fn run_seq(case: &SeqCase, rep: &mut RunReport) -> Result<(), Violation> {
             let tmp = Ledger { states: vec![model.clone(), after.clone()], flushed: vec![Default::default(); 2], handed: vec![Default::default(); 2] };
             let one = [op.clone()];
             let cc = CrashCheck { knobs, ledger: &tmp, ops: &one, seed: case.seed, reboot_delta: 0 };
-            cc.check_ledger(&obs, 0, &format!("after faulted op#{i} {op:?} -> {out:?}"))?;
+            cc.check_ledger(&obs, 0, &format!("after faulted op#{i} {op:?} -> {out:?}")).map_err(|mut v| {
+                if std::env::var("SIM_TRACE").is_ok() {
+                    let t: Vec<String> = sim.trace().iter().map(|e| format!("#{} {:?} {} {}", e.seq, e.kind, e.path, e.verdict)).collect();
+                    v.message = format!("{}\nbackend trace:\n{}", v.message, t.join("\n"));
+                }
+                v
+            })?;
             // collapse
             if obs.docs == after.docs && obs.docs != model.docs {
                 rep.probe("unknown_outcome_was_applied", 1);
@@ -281,6 +313,24 @@ pub fn run_seq(case: &SeqCase, rep: &mut RunReport) -> Result<(), Violation> {
             model.ext = obs.ext.clone();
             max_id = max_id.max(obs.docs.keys().copied().max().unwrap_or(0));
             ok = false;
+            if !need_restart && !poisoned {
+                // same live handle: what does storage say? (throwaway process image on a fork)
+                let tmp2 = Ledger { states: vec![model.clone()], flushed: vec![Default::default()], handed: vec![Default::default()] };
+                let kx = with_ix(cur_ix);
+                let cc2 = CrashCheck { knobs: &kx, ledger: &tmp2, ops: &[], seed: case.seed, reboot_delta: 0 };
+                if let Ok(b) = cc2.boot_fork(store.disk().fork(), sim.clock().now_ms(), true, false, "durable view after a failed call on a live handle") {
+                    if let Ok(d) = block(observe(&b.world.coll, b.world.knobs.indexes, &b.world.vocab, max_id + 1)) {
+                        let keys: std::collections::BTreeSet<String> = d.ext.keys().chain(obs.ext.keys()).cloned().collect();
+                        for k in keys {
+                            if d.ext.get(&k) != obs.ext.get(&k) {
+                                unsettled_ext.insert(k.clone(), d.ext.get(&k).copied());
+                                rep.probe("live_handle_ahead_of_storage", 1);
+                            }
+                        }
+                    }
+                }
+                sim.install_clock_here();
+            }
             if matches!(op, DOp::Reindex { .. }) {
                 // the application retries the interrupted index change; it must get through
                 world.knobs.indexes = cur_ix;
@@ -308,6 +358,10 @@ pub fn run_seq(case: &SeqCase, rep: &mut RunReport) -> Result<(), Violation> {
                 handed_this_boot.insert(*id);
                 new_id = Some(*id);
                 max_id = max_id.max(*id);
+            }
+            if ok && !unsettled_ext.is_empty() && sim.mut_log_since(mlog0).iter().any(|m| m.applied && m.path.ends_with(&format!("{COLL}/meta.cbor"))) {
+                // a successful metadata write persists the handle's whole extension map
+                unsettled_ext.clear();
             }
             if ok {
                 model.apply(op, &exp, new_id);
